@@ -1421,3 +1421,50 @@ func specBalanced(n ast.Node) bool {
 //@   callassert[C04] sortDeclarations 0 forall(0, len(pkg.Declarations), func(k int) bool { return specBalanced(pkg.Declarations[k]) })
 //@   loop 0
 //@     invariant[C04] forall(0, rangeIndex(0), func(k int) bool { return specBalanced(pkg.Declarations[k]) })
+
+// ---------------------------------------------------------------------------
+// C04, disassembler: an instruction names a type, a function or a native
+// function by an 8-bit operand that the virtual machine reads as unsigned
+// (tables of up to 256 entries). The disassembler must index the same tables
+// with the same reading: every index into them is in 0..255, whatever the
+// operand byte. (The other obligations of these units - table lengths, the
+// operands of other kinds - depend on bytecode well-formedness and are not
+// claimed: bucket X00.)
+// ---------------------------------------------------------------------------
+
+//@ func disassembleInstruction
+//@   props X00 C04
+//@   panics allowed
+//@   idxassert[C04] fn.Types 0 256
+
+//@ func funcNameType
+//@   props X00 C04
+//@   panics allowed
+//@   idxassert[C04] fn.Functions 0 256
+//@   idxassert[C04] fn.NativeFunctions 0 256
+
+// Helpers of disassembleInstruction, not under contract (kept out of its unit):
+//@ func disassembleOperand
+//@   props X00
+//@   trusted
+//@   modifies nothing
+
+//@ func getKind
+//@   props X00
+//@   trusted
+//@   modifies nothing
+
+//@ func disassembleFunctionCall
+//@   props X00
+//@   trusted
+//@   modifies nothing
+
+//@ func disassembleVarRef
+//@   props X00
+//@   trusted
+//@   modifies nothing
+
+//@ func disassembleFieldIndex
+//@   props X00
+//@   trusted
+//@   modifies nothing
